@@ -29,6 +29,10 @@ type Search struct {
 	MaxViolations int
 	// Allowed restricts the successor symbols of a history (nil = all).
 	Allowed func(hist []int) []int
+	// Prefix, if set, shards the search: only histories that start with it are
+	// explored (the prefix itself is explored by the shard with the empty prefix...
+	// callers enumerate all first symbols as shards, so together they cover everything).
+	Prefix []int
 }
 
 // SearchStats summarises a search.
@@ -54,7 +58,30 @@ func (s *Search) Run() *SearchStats {
 	vkeys := map[string]bool{}
 	frontier := [][]int{{}}
 	st.States = 1
-	for depth := 1; depth <= s.Depth; depth++ {
+	start := 1
+	if len(s.Prefix) > 0 {
+		// the prefix history is executed (and judged) as a history of its own first
+		r := s.Exec(s.Prefix)
+		st.Executions++
+		st.Transitions++
+		if r.Nontrivial {
+			st.Nontrivial++
+		}
+		st.Outcomes[r.Outcome]++
+		if r.Violation != nil {
+			st.Violations = append(st.Violations, *r.Violation)
+			return st
+		}
+		if r.Dead {
+			return st
+		}
+		if r.Key != 0 {
+			seen[r.Key] = struct{}{}
+		}
+		frontier = [][]int{append([]int(nil), s.Prefix...)}
+		start = len(s.Prefix) + 1
+	}
+	for depth := start; depth <= s.Depth; depth++ {
 		var next [][]int
 		for _, h := range frontier {
 			syms := allSyms(s.Alphabet)
